@@ -151,7 +151,7 @@ def reader_map(prog, func):
     return out
 
 
-def referenced_tables(prog, func, lambdas=()):
+def referenced_tables(prog, func, lambdas=(), as_pairs=False):
     """{literal: enumerator} of the namespace-scope lookup tables (rows `{"literal", ..., Enum::X}`) that func or its lambdas name: a
     reader that walks such a table pairs each literal with the enumerator in the same row"""
     names = set()
@@ -169,8 +169,11 @@ def referenced_tables(prog, func, lambdas=()):
             continue
         if v["name"].rsplit("::", 1)[-1] in names:
             for lit, en in static_table(v["init"]).items():
-                out.setdefault(lit, en)
-    return out
+                if as_pairs:
+                    out.setdefault((lit, en), en)
+                else:
+                    out.setdefault(lit, en)
+    return list(out) if as_pairs else out
 
 
 def enum_predicate(func):
